@@ -142,3 +142,28 @@ package core
 //@ func (a *TransferAttributes) SetDestinationDenom(denom) ()
 //@   modifies a.destinationCoin
 //@   ensures[C06] a != nil ==> a.destinationCoin.Denom == denom && a.destinationCoin.Amount == old(a.destinationCoin.Amount) && a.sourceCoin == old(a.sourceCoin)
+
+// ---------------------------------------------------------------------------------------------
+// Interface unpacking (C15): the codec calls these while it decodes a payload, and a payload whose action or
+// forwarding attributes are not of a registered implementation is refused there. They report no error only if
+// every non-nil action's attributes and the forwarding's attributes went through a successful UnpackAny
+// (ghost set unpack_ok, specs/13-codec.spec) - an earlier failure is not forgotten.
+// ---------------------------------------------------------------------------------------------
+//@ func (a *Action) UnpackInterfaces(unpacker) (err)
+//@   requires[base] tag(unpacker) != 0
+//@   modifies unpack_ok, a.Attributes.cachedValue
+//@   ensures[C15] err == nil ==> a != nil && unpack_ok[a.Attributes]
+//@   ensures[C15] forall r int :: old(unpack_ok)[r] ==> unpack_ok[r]
+
+//@ func (f *Forwarding) UnpackInterfaces(unpacker) (err)
+//@   requires[base] tag(unpacker) != 0
+//@   modifies unpack_ok, f.Attributes.cachedValue
+//@   ensures[C15] err == nil ==> f != nil && unpack_ok[f.Attributes]
+//@   ensures[C15] forall r int :: old(unpack_ok)[r] ==> unpack_ok[r]
+
+//@ func (p *Payload) UnpackInterfaces(unpacker) (err)
+//@   requires[base] tag(unpacker) != 0
+//@   modifies heap, unpack_ok
+//@   loop 0 invariant[C15] forall j int :: 0 <= j && j < idx && p.PreActions[j] != nil ==> unpack_ok[p.PreActions[j].Attributes]
+//@   ensures[C15] err == nil ==> forall j int :: 0 <= j && j < len(p.PreActions) && p.PreActions[j] != nil ==> unpack_ok[p.PreActions[j].Attributes]
+//@   ensures[C15] err == nil && p.Forwarding != nil ==> unpack_ok[p.Forwarding.Attributes]
